@@ -66,7 +66,7 @@ theorem C09_text_transaction (pad : Nat) (path : String) (t : Transaction) (h : 
 theorem C09_text_items (padding : Nat) (path : String) (items : List Syntax.Item) (h : ItemsShape items) :
     loadText path (flat (outToks padding items)) =
       (match (viewsOf items).mapM (fun v => itemV v.bytes) with
-       | none => .error
+       | none => loadFailed (okPrefix (fun v => itemV v.bytes) (viewsOf items))
        | some its => loadItems its) := loadText_rendered padding path items h
 
 /-- the scanner sees a Lean string as its characters, for every string (UTF-8 decoding inverts `String.utf8EncodeChar`) -/
